@@ -295,7 +295,13 @@ func Print(w io.Writer, j *Journal) error {
 				return err
 			}
 		}
-		for _, a := range day.Assertions {
+		for i, a := range day.Assertions {
+			if i > 0 && len(day.Assertions[i-1].Balances) != 1 {
+				// a multi-line assertion is terminated by a blank line
+				if _, err := io.WriteString(p, "\n"); err != nil {
+					return err
+				}
+			}
 			if _, err := p.PrintDirectiveLn(a); err != nil {
 				return err
 			}
